@@ -44,6 +44,11 @@ func H_C14_FrostTaprootDerive() {
 	for d := 0; d < depth; d++ {
 		idx := vsym.Uint32([]string{"index0", "index1", "index2", "index3"}[d])
 		vsym.Assume(idx < 1<<31)
+		if vsym.Choose("fixed-index", 2) == 1 {
+			// a concrete index whose four bytes all differ: a byte-order or truncation slip in ser32(i) shows as a
+			// counterexample without symbolic index, which the native replay reproduces
+			idx = 0x01020304
+		}
 		parent := cur[ids[0]]
 		P, err := group.LiftX(parent.PublicKey)
 		vsym.Assert(err == nil, "parent key lifts")
